@@ -90,7 +90,7 @@ def run(ctx, report):
         'operators -- is rebuilt symbolically because eval_ExprOp tests membership in deal_op before dispatching; integer-valued operators without evaluator '
         'are reported. D2: the evaluator of every commutative-associative operator (which expr_simp flattens to n operands) consumes all of args. D3: no '
         'always-raising construct in the evaluation closure (true division on fixed-width integers, raise of a string, dict view + list, cPickle). D4: the '
-        'scalar result is wrapped as ExprInt(cast_int(..)) with cast_int the type of the first operand; eval_ExprId is the exact pool lookup.')
+        'scalar result is wrapped as ExprInt(cast_int(..)) with cast_int the type of the first operand; eval_ExprId is the exact pool lookup. D5: operator token / ring size of each evaluator. D6: in the structure evaluators (eval_Expr*) no fixed-width payload (x.arg without int()) is shifted to a bit position, and the arms of a conditional piece are shifted to the start of their slot.')
     report.not_decided = 'numeric correctness of each evaluator; Cond/Compose/Slice folding on concrete values.'
     methods = ea.methods('eval_abs')
     cls = ea.cls('eval_abs')
@@ -232,6 +232,61 @@ def run(ctx, report):
                 R3.violation(inst, '%s:%s' % (inst, norm(n)), '%s: %s -- %s' % (inst, norm(n), what), where(ea, n))
         else:
             R3.ok(inst, nontrivial=False)
+
+    # ---------------------------------------------------------------- D6 placement arithmetic of the structure evaluators
+    R6 = report.rule('C06.D6', 'structure evaluators place bits with plain-integer arithmetic', floor=4)
+    for name, fn in sorted(methods.items()):
+        if not name.startswith('eval_Expr'):
+            continue
+        # names bound to the fixed-width payload of a constant (x.arg) without int()
+        fw = set()
+        for n in walk_no_nested(fn):
+            if isinstance(n, ast.Assign) and len(n.targets) == 1 and isinstance(n.targets[0], ast.Name):
+                v = n.value
+                if isinstance(v, ast.Attribute) and v.attr == 'arg':
+                    fw.add(n.targets[0].id)
+                elif isinstance(v, ast.BinOp) and isinstance(v.left, ast.Attribute) and v.left.attr == 'arg' and isinstance(v.op, (ast.BitAnd, ast.BitOr, ast.RShift)):
+                    fw.add(n.targets[0].id)
+
+        def is_fw(e):
+            if isinstance(e, ast.Name):
+                return e.id in fw
+            if isinstance(e, ast.Attribute):
+                return e.attr == 'arg'
+            if isinstance(e, ast.BinOp) and isinstance(e.op, (ast.BitAnd, ast.BitOr, ast.BitXor)):
+                return is_fw(e.left) or is_fw(e.right)
+            return False
+        shifts = []
+        for n in walk_no_nested(fn):
+            if isinstance(n, ast.AugAssign) and isinstance(n.op, ast.LShift):
+                shifts.append((n, n.target, n.value))
+            elif isinstance(n, ast.BinOp) and isinstance(n.op, ast.LShift) and not (isinstance(n.left, ast.Constant)):
+                shifts.append((n, n.left, n.right))
+        for node, left, amount in shifts:
+            inst = '%s:%s' % (name, norm(node))
+            if is_fw(left):
+                R6.violation(inst, 'placement:%s:%s' % (name, norm(node)), '%s shifts the fixed-width payload `%s` of a constant to bit position `%s`: the value wraps at the width of the piece itself, '
+                             'so the bits of every piece that does not start at 0 are lost' % (name, u(left), u(amount)), where(ea, node),
+                             witness='Compose(0x11@0:8, 0x22@8:16, 0x4433@16:32) evaluates to 0x11')
+            else:
+                R6.ok(inst, sample='%s: `%s` shifts a plain integer' % (name, norm(node)))
+    ec = methods.get('eval_ExprCompose')
+    if ec is None:
+        raise AnalysisError('eval_abs.eval_ExprCompose not found')
+    arms = [n for n in walk_no_nested(ec) if isinstance(n, ast.Assign) and any(isinstance(x, ast.Attribute) and x.attr in ('src1', 'src2') for x in ast.walk(n.value))
+            and any(isinstance(x, ast.Attribute) and x.attr == 'arg' for x in ast.walk(n.value))]
+    if not arms:
+        raise AnalysisError('eval_ExprCompose: the handling of a conditional piece was not found')
+    for n in arms:
+        inst = 'eval_ExprCompose:%s' % norm(n)[:70]
+        vals = n.value.elts if isinstance(n.value, ast.Tuple) else [n.value]
+        armvals = [v for v in vals if any(isinstance(x, ast.Attribute) and x.attr in ('src1', 'src2') for x in ast.walk(v))]
+        bad = [v for v in armvals if not any(isinstance(x, ast.BinOp) and isinstance(x.op, ast.LShift) and u(x.right) == 'start' for x in ast.walk(v))]
+        if bad:
+            R6.violation(inst, 'placement:cond-arm:%s' % norm(bad[0])[:60], 'eval_ExprCompose does not shift the arms of a conditional piece to the start of its slot (%s): correct only when the '
+                         'conditional piece is the lowest one' % norm(bad[0])[:60], where(ea, n), witness='Compose(a@0:8, (z?1:2)@8:16) evaluates to z?(0x11,0x13)')
+        else:
+            R6.ok(inst, sample='conditional arms masked and shifted by start')
 
     R4 = report.rule('C06.D4', 'results are cast to the operands\' type; identifiers are looked up exactly', floor=2)
     txt = u(eo)
@@ -430,5 +485,7 @@ MUTANTS = [
     ('parity-wide', 'miasmx/expression/expression_eval_abstract.py', "    def parity(self, a):\n        tmp = (a)&0xFF", "    def parity(self, a):\n        tmp = (a)&0xFFFF", 'C06.D5'),
     ('no-bool', 'miasmx/tools/modint.py', "    def __bool__(self):\n        return self.arg != 0\n    __nonzero__ = __bool__\n", "", 'C06.D3'),
     ('bsf-two-args-only', 'miasmx/expression/expression_eval_abstract.py', "        if len(args) == 1:\n            return self.my_bsf(args[0])\n", "", 'C06.D1'),
+    ('compose-fw-shift', 'miasmx/expression/expression_eval_abstract.py', "        for xx, start, stop in args:\n            a = int(xx.arg)\n", "        for xx, start, stop in args:\n            a = xx.arg\n", 'C06.D6'),
+    ('compose-cond-noshift', 'miasmx/expression/expression_eval_abstract.py', "                    mysrc1 = (int(a.src1.arg)&mask)<<start\n", "                    mysrc1 = (int(a.src1.arg)&mask)\n", 'C06.D6'),
     ('no-slice-eval', 'miasmx/expression/expression_eval_abstract.py', "                      ExprSlice: self.eval_ExprSlice,\n", "", 'C06.D4'),
 ]
